@@ -497,7 +497,7 @@ func call(i *interpreter, caller *frame, callpos token.Pos, fn value, args []val
 	switch fn := fn.(type) {
 	case *ssa.Function:
 		if fn == nil {
-			panic("call of nil function") // nil of func type
+			panic(rtError("invalid memory address or nil pointer dereference (call of nil func)"))
 		}
 		return callSSA(i, caller, callpos, fn, args, nil)
 	case *closure:
